@@ -28,6 +28,7 @@ from pathlib import Path
 from hypothesis import strategies as st
 
 from vf import runner, seeds
+from vf.gen import c11_zoo as zoo
 from vf.engine import Case, Failure, h
 from vf.project import Project
 
@@ -45,7 +46,7 @@ ASSUMPTIONS = [
     "configuration is fixed and valid, so no ValueError can be a legitimate configuration error",
     "hang = a call exceeding 60 s on an input <= 2 MB, confirmed in a fresh subprocess with a 120 s limit; otherwise counted as inconclusive",
 ]
-BUDGET_S = {"quick": 170, "thorough": 1200}
+BUDGET_S = {"quick": 220, "thorough": 1200}
 
 CONFIG = {"dry": {"enabled": True, "min_duplicate_lines": 3}}
 ALL_CMDS = ["nesting", "srp", "magic-numbers", "dry", "stringly-typed", "file-placement", "file-header", "improper-logging", "print-statements",
@@ -109,6 +110,8 @@ def base_text(lang, fams, u):
     text = seeds.compose(lang, parts, header=(u % 2 == 0), gap=1)[0]
     if u % 3 != 1:
         text = "\n".join(MULTILINE_OPENERS[lang]) + "\n" + text
+    if u % 4 != 3:
+        text = text + zoo.ZOO[lang]
     return text
 
 
@@ -280,12 +283,14 @@ def mutate(data: bytes, muts) -> bytes:
             data = b"\n".join(lines)
         elif kind == "nonl":
             data = data.rstrip(b"\n")
+        elif kind == "retype":  # one literal becomes a literal / expression of another type (the file usually stays valid)
+            data = zoo.retype(data, a, b)
         else:
             raise ValueError(kind)
     return data
 
 
-MUT_KINDS = ["truncate", "truncate-early", "truncate-at-open", "unclose", "ctrl", "ctrl", "delete", "dup", "swap", "insert", "insert", "badutf8", "overwrite", "crlf", "mixed", "bom", "utf16", "delline", "dedent", "nonl"]
+MUT_KINDS = ["retype", "retype", "retype", "truncate", "truncate-early", "truncate-at-open", "unclose", "ctrl", "ctrl", "delete", "dup", "swap", "insert", "insert", "badutf8", "overwrite", "crlf", "mixed", "bom", "utf16", "delline", "dedent", "nonl"]
 
 
 def offender_bytes(case) -> bytes:
@@ -298,6 +303,8 @@ def offender_bytes(case) -> bytes:
         return bytes.fromhex(case["hex"])
     if k == "blank":
         return case["text"].encode()
+    if k == "zoo":  # the syntax zoo with ONE literal re-typed: (literal index, value index) is an enumerated matrix
+        return zoo.retype_at(zoo.ZOO[case["lang"]].encode(), case["lit"], case["val"])
     if k == "ext":
         return ((case["shebang"] + "\n") if case["shebang"] else "").encode() + base_text(case["lang"], case["fams"], case["u"]).encode()
     raise ValueError(k)
@@ -403,6 +410,8 @@ def check(case) -> Case:
                 failures.append(Failure(f"siblings-changed|{rules}", {**detail, **d}))
         # real commands
         cmds = [ALL_CMDS[(case.get("rot", 0) + i) % len(ALL_CMDS)] for i in range(2)]
+        if case.get("lib_only"):
+            cmds = []  # enumerated matrices: the library run of all rules is the oracle, commands only to confirm an anomaly
         if anomalous or case.get("all_cmds"):
             cmds = ALL_CMDS
         for cmd in cmds:
@@ -501,6 +510,16 @@ def exts(draw):
 
 def run(ctx):
     baseline()
+    # literal re-typing matrix over the syntax zoo: every literal x every replacement value (quick: the values that
+    # change the literal's type most plainly, and the half of the cells selected by the seed)
+    vals = range(len(zoo.RETYPE)) if not ctx.quick else range(12)
+    cells = [{"kind": "zoo", "lang": lang, "lit": i, "val": v, "rot": (i + v) % 3, "lib_only": True}
+             for lang in ("py", "ts", "js", "rs") for i in range(zoo.n_literals(lang)) for v in vals]
+    if ctx.quick:
+        cells = [c for k, c in enumerate(cells) if c["lang"] == "py" or (k + ctx.seed) % 2 == 0]
+    mine = ctx.my_cells(cells)
+    done = ctx.each(mine, check)
+    ctx.stats.extra.setdefault("matrix", {})["syntax zoo: literal x replacement value"] = {"cells": len(mine), "done": done}
     ctx.explore(mutants(), check, max_examples=ctx.n(45, 700), salt=1)
     ctx.explore(blowups(1000 if ctx.quick else 1000000), check, max_examples=ctx.n(12, 150), salt=2)
     ctx.explore(raws(), check, max_examples=ctx.n(15, 300), salt=3)
